@@ -2,13 +2,22 @@ import LaunchpadModel.Model.Basic
 import LaunchpadModel.Model.Decimal
 import LaunchpadModel.Generated.Constants
 /-!
-# sg721-base — collection info, royalties, the 24 h royalty cadence, and the royalty payout helper
+# sg721-base / -nt / -updatable / -metadata-onchain — collection info, royalties, the 24 h royalty cadence,
+the migrations that touch the cadence anchor, and the royalty payout helper
+
+All four collection contracts run the same `Sg721Contract::{instantiate, update_collection_info,
+freeze_collection_info}`; they differ in their `ExecuteMsg` dispatch (checked by the correspondence run, per kind)
+and in their `migrate` entry points (`sg721-updatable::_migrate` applies `sg721_base::upgrades::v3_1_0`, which
+REWINDS `royalty_updated_at` to `now − 24 h` when the stored cw2 version is below 3.1.0).
 
 Mirrors (current /repo):
 
 * `contracts/collections/sg721-base/src/contract.rs`: `instantiate`, `update_collection_info`,
   `freeze_collection_info`, `update_start_trading_time`, `share_validate`;
-* `contracts/collections/sg721-base/src/msg.rs`: `CollectionInfoResponse::royalty_payout`.
+* `contracts/collections/sg721-base/src/msg.rs`: `CollectionInfoResponse::royalty_payout`;
+* `contracts/collections/sg721-updatable/src/contract.rs::_migrate`, `sg721-base/src/upgrades/v3_1_0.rs`,
+  the `migrate` entry points of sg721-nt and sg721-metadata-onchain (royalty frame only; whether a migration is
+  *accepted* is C20's matter and enters as a witness).
 
 Conventions (checked by the correspondence run, see `harness/src/bin/c10.rs`):
 
@@ -42,14 +51,43 @@ def optUrlValid : Option Nat → Bool
   | none => true
   | some u => urlValid u
 
+/-- which collection contract's code the instance currently runs -/
+inductive Kind where
+  | base | nt | updatable | onchain
+deriving Repr, DecidableEq
+
+/-- a cw2 / semver version `major.minor.patch` (pre-release tags are outside the model) -/
+abbrev Ver := Nat × Nat × Nat
+
+/-- `semver::Version` ordering on `major.minor.patch` -/
+def verLt (a b : Ver) : Bool :=
+  decide (a.1 < b.1) || (a.1 == b.1 && (decide (a.2.1 < b.2.1) || (a.2.1 == b.2.1 && decide (a.2.2 < b.2.2))))
+
+/-- the inline `Version::new(3, 1, 0)` of `sg721-updatable::_migrate` (tied by the boundary cases 3.0.99 / 3.1.0 / 3.1.1) -/
+def V310 : Ver := (3, 1, 0)
+
+/-- `CONTRACT_VERSION = env!("CARGO_PKG_VERSION")` of each crate (regenerated from /repo) -/
+def curVer : Kind → Ver
+  | .base => Gen.sg721_base_CRATE_VERSION_TRIPLE
+  | .nt => Gen.sg721_nt_CRATE_VERSION_TRIPLE
+  | .updatable => Gen.sg721_updatable_CRATE_VERSION_TRIPLE
+  | .onchain => Gen.sg721_metadata_onchain_CRATE_VERSION_TRIPLE
+
 /-- `sg721::RoyaltyInfo` / `RoyaltyInfoResponse` -/
 structure RoyaltyInfo where
   addr : Addr
   share : Nat
 deriving Repr, DecidableEq, BEq
 
-/-- The collection state C10 is about: `collection_info`, `frozen_collection_info`, `royalty_updated_at`. -/
+/-- The collection state C10 is about: `collection_info`, `frozen_collection_info`, `royalty_updated_at`, plus the code the
+instance runs and its stored cw2 version (they decide whether a migration rewinds the cadence anchor). -/
 structure Coll where
+  /-- the code the instance runs -/
+  kind : Kind
+  /-- the contract NAME in the stored cw2 record (a migration may keep the old name: sg721-metadata-onchain's `migrate` returns
+  early for an equal version without looking at, or rewriting, the record) -/
+  name : Kind
+  ver : Ver
   creator : Addr
   descLen : Nat
   image : Nat
@@ -68,6 +106,8 @@ def shareValidate (share : Nat) : Except Err Nat :=
 /-! ## instantiate -/
 
 structure InstMsg where
+  /-- the contract whose code is instantiated -/
+  kind : Kind
   /-- `WasmQuery::ContractInfo{info.sender}` succeeds -/
   senderIsContract : Bool
   /-- amount of the single coin attached (0 = no funds) -/
@@ -103,7 +143,7 @@ def instantiate (now : Nat) (m : InstMsg) : Except Err Coll :=
     | .error e => .error e
     | .ok roy =>
       if !addrValid m.creator then .error .invalid
-      else .ok { creator := m.creator, descLen := m.descLen, image := m.image, link := m.link,
+      else .ok { kind := m.kind, name := m.kind, ver := curVer m.kind, creator := m.creator, descLen := m.descLen, image := m.image, link := m.link,
                  explicit := m.explicit, startTrading := m.startTrading, royalty := roy,
                  frozen := false, updatedAt := now }
 
@@ -173,13 +213,47 @@ def updateCollectionInfo (c : Coll) (now : Nat) (sender : Addr) (m : UpdMsg) : E
           | .set r => applyRoyalty c1 now r
           | _ => .ok c1      -- `None` and `Some(None)` both leave the royalty alone
 
+/-! ## migrate -/
+
+/-- does a successful migration of `c` to the code of `target` run `upgrades::v3_1_0` (anchor := now − 24 h)?
+Only `sg721-updatable::_migrate` does, for a stored version below 3.1.0; it accepts the stored names of sg721-base and
+sg721-updatable only. -/
+def rewinds (c : Coll) (target : Kind) : Bool :=
+  decide (target = .updatable ∧ (c.name = .base ∨ c.name = .updatable)) && verLt c.ver V310
+
+/-- a migration the chain ACCEPTED (the acceptance itself is a witness, C20 owns it), as far as royalties are concerned:
+* → sg721-updatable (`_migrate`): stored name must be sg721-base / sg721-updatable; `v3_1_0::upgrade` iff stored version < 3.1.0;
+  the record becomes (sg721-updatable, current version);
+* → sg721-metadata-onchain (`migrate`): no name check; an equal version returns early (record untouched), a lower one rewrites
+  the record to (sg721-metadata-onchain, `TO_VERSION` = 3.0.0); the collection state is never touched;
+* → sg721-nt (`migrate`): refuses unless the crate version equals `TO_VERSION` = 3.0.0, then does nothing;
+* → sg721-base: no `migrate` entry point. -/
+def migrate (c : Coll) (now : Nat) (target : Kind) : Except Err Coll :=
+  match target with
+  | .updatable =>
+    if c.name = .base ∨ c.name = .updatable then
+      .ok { c with kind := .updatable, name := .updatable, ver := curVer .updatable,
+                   updatedAt := if verLt c.ver V310 then now - DAY_NS else c.updatedAt }
+    else .error .version        -- "Invalid contract name for migration"
+  | .onchain =>
+    if verLt c.ver (curVer .onchain) then .ok { c with kind := .onchain, name := .onchain, ver := (3, 0, 0) }
+    else .ok { c with kind := .onchain }
+  | .nt => if curVer .nt = (3, 0, 0) then .ok { c with kind := .nt } else .error .version
+  | .base => .error .version
+
 inductive Action where
   | update (m : UpdMsg)
   | freeze
   /-- `UpdateStartTradingTime` (minter only — authorisation is C05/C19 matter: witnessed) -/
   | startTrading (t : Option Nat) (ok : Bool)
-  /-- any other `ExecuteMsg` (cw721 surface, `UpdateOwnership`): witnessed outcome -/
+  /-- any other `ExecuteMsg` of the running contract (cw721 surface, `UpdateOwnership`, token-metadata messages of
+  sg721-updatable, variants the harness discovers in the JSON schema at run time): witnessed outcome -/
   | other (ok : Bool)
+  /-- `MsgMigrateContract` to the code of `target` by the admin; `ok` = accepted by the chain (witness) -/
+  | migrate (target : Kind) (ok : Bool)
+  /-- NOT a contract message: the harness rewrites the stored cw2 version to stand for an instance created by older
+  code. Histories of real messages never contain it (`Props/C10.lean: NoSetver`). -/
+  | setver (v : Ver)
 deriving Repr
 
 structure Op where
@@ -194,6 +268,8 @@ def step (c : Coll) (op : Op) : Except Err Coll :=
   | .freeze => if c.creator ≠ op.sender then .error .unauthorized else .ok { c with frozen := true }
   | .startTrading t ok => if ok then .ok { c with startTrading := t } else .error .unauthorized
   | .other ok => if ok then .ok c else .error .other
+  | .migrate target ok => if ok then migrate c op.now target else .error .version
+  | .setver v => .ok { c with ver := v }
 
 /-- transactional step: a failed message leaves the state unchanged -/
 def step' (c : Coll) (op : Op) : Coll :=
@@ -231,10 +307,12 @@ def raises : Coll → List Op → Nat
 /-! ## the payout helper -/
 
 /-- `CollectionInfoResponse::royalty_payout(collection, payment, protocol_fee, finders_fee, res)`:
-returns the royalty amount and the messages pushed onto `res`. -/
+returns the royalty amount and the messages pushed onto `res`. Since /repo 00871d3 the fees alone are checked against the
+payment first, whether or not a royalty is due (before: `Ok(0)` for absent royalties / a zero share, whatever the fees). -/
 def royaltyPayout (info : Option RoyaltyInfo) (payment protocolFee : Nat) (finders : Option Nat) :
     Except Err (Nat × List Msg) :=
-  match info with
+  if payment < protocolFee + finders.getD 0 then .error .other       -- "Fees exceed payment"
+  else match info with
   | none => .ok (0, [])
   | some r =>
     if r.share = 0 then .ok (0, [])
